@@ -808,10 +808,7 @@ def alias_note(ctx: Ctx, kind: str, what: str, how: str, effect: str) -> list[st
         return [f"oracle: handout-aliasing: {kind}: writing ({how}) into {what} {effect}"]
     seen = ctx.extra.setdefault("handout_aliasing_observed", {})
     key = f"{kind}:{what}"
-    if key not in seen:
-        seen[key] = effect
-        ctx.notes.append(f"observation (not counted): {kind} result: writing ({how}) into {what} {effect}; the accessors hand out "
-                         "the internal objects and the constructor keeps the caller's lists (not promised otherwise by the property)")
+    seen.setdefault(key, effect)  # one consolidated note at the end of the run
     return []
 
 
@@ -1497,6 +1494,11 @@ def run(ctx: Ctx) -> None:
                 ctx.count("cases_with_problems")
                 small = shrink(ctx, case)
                 report(ctx, small, run_case(ctx, small) or probs)
+    seen = ctx.extra.get("handout_aliasing_observed")
+    if seen:
+        ctx.notes.append("observation (not counted; the property does not promise otherwise, see ASSUMPTIONS): the accessors hand out "
+                         "the internal objects and the constructor keeps the caller's lists, so a client that writes into them "
+                         "desynchronises the result - " + "; ".join(f"{k} {v}" for k, v in seen.items()))
 
 
 def clause_of(problem: str) -> str:
